@@ -11,10 +11,10 @@ from sim.core import Violation, HarnessError
 
 
 def _mods():
-    from discopy import monoidal, rigid, tensor
+    from discopy import monoidal, rigid, tensor, cartesian
     from discopy.quantum import circuit, zx
     return {"monoidal": monoidal, "rigid": rigid, "tensor": tensor,
-            "circuit": circuit, "zx": zx}
+            "circuit": circuit, "zx": zx, "cartesian": cartesian}
 
 
 def make_ty(cls, atoms):
@@ -34,6 +34,8 @@ def make_ty(cls, atoms):
         return t
     if cls == "zx":
         return mods["zx"].PRO(len(atoms))
+    if cls == "cartesian":
+        return mods["cartesian"].PRO(len(atoms))
     raise HarnessError("unknown class " + cls)
 
 
@@ -48,6 +50,16 @@ def make_box(cls, b):
         return mods["rigid"].Cap(cod[:1], cod[1:])
     if kind == "swap":
         return mod.Swap(dom[:1], dom[1:])
+    if cls == "circuit" and str(b["name"]).startswith("ms") and not b["dom"] and not b["cod"]:
+        from discopy.quantum.gates import MixedScalar
+        return MixedScalar(0.5j)      # a box whose double dagger is not itself (mixedness is lost)
+    if cls == "cartesian":
+        k = len(b["cod"])
+
+        def function(*xs, k=k):
+            return tuple(range(k))
+        function.__qualname__ = function.__name__ = "const%d" % k
+        return mod.Box(b["name"], len(b["dom"]), k, function)
     if cls == "tensor":
         import numpy as np
         n = 1
@@ -74,7 +86,7 @@ def diagram_class(cls):
     mods = _mods()
     return {"monoidal": mods["monoidal"].Diagram, "rigid": mods["rigid"].Diagram,
             "tensor": mods["tensor"].Diagram, "circuit": mods["circuit"].Circuit,
-            "zx": mods["zx"].Diagram}[cls]
+            "zx": mods["zx"].Diagram, "cartesian": mods["cartesian"].Diagram}[cls]
 
 
 def build(spec):
@@ -82,7 +94,13 @@ def build(spec):
     cls = spec["cls"]
     sm = spec_model(spec)
     cod = M.cod_of(sm)            # raises ModelError on an ill-typed spec
-    boxes = [make_box(cls, b) for b in spec["boxes"]]
+    if spec.get("share"):
+        # equal boxes are ONE Python object occurring several times (as when a user writes
+        # cap = Cap(n.r, n) once and uses it twice)
+        memo = {}
+        boxes = [memo.setdefault(repr(sorted(b.items())), make_box(cls, b)) for b in spec["boxes"]]
+    else:
+        boxes = [make_box(cls, b) for b in spec["boxes"]]
     return diagram_class(cls)(make_ty(cls, spec["dom"]), make_ty(cls, cod),
                               boxes, list(spec["offsets"]))
 
@@ -176,6 +194,8 @@ def gen_monoidal(rng, nboxes, cls="monoidal", atoms=("x", "y"), maxw=6,
         if len(cur) - nin + nout > maxw:
             nout = max(0, maxw - (len(cur) - nin))
         name = rng.choice(["f", "g"]) if rng.random() < p_samename else "b%d" % k
+        if cls == "circuit" and nin == 0 and nout == 0 and rng.random() < 0.5:
+            name = "ms"
         bdom = [list(a) for a in cur[off:off + nin]]
         bcod = [atom() for _ in range(nout)]
         boxes.append({"name": name, "dom": bdom, "cod": bcod, "kind": "box",
@@ -183,7 +203,7 @@ def gen_monoidal(rng, nboxes, cls="monoidal", atoms=("x", "y"), maxw=6,
         offsets.append(off)
         cur = cur[:off] + bcod + cur[off + nin:]
         prod = prod[:off] + [k] * nout + prod[off + nin:]
-    return {"cls": cls, "dom": dom, "boxes": boxes, "offsets": offsets}
+    return {"cls": cls, "dom": dom, "boxes": boxes, "offsets": offsets, "share": rng.random() < 0.3}
 
 
 def gen_rigid(rng, nsteps, atoms=("a", "b"), maxw=6, zs=(0, 0, 0, 1, -1, 2, -2, 3, -3),
@@ -218,10 +238,15 @@ def gen_rigid(rng, nsteps, atoms=("a", "b"), maxw=6, zs=(0, 0, 0, 1, -1, 2, -2, 
         add(box, off)
         return nout - nin, off
 
+    caps_made = []
+
     def cap_at(off, o=None):
-        o = o or ob()
-        other = [o[0], o[1] + rng.choice([1, -1])]
-        pair = [o, other]
+        if caps_made and rng.random() < 0.4:
+            pair = [list(a) for a in rng.choice(caps_made)]      # the same cap again
+        else:
+            o = o or ob()
+            pair = [o, [o[0], o[1] + rng.choice([1, -1])]]
+        caps_made.append(pair)
         add({"name": "Cap", "dom": [], "cod": pair, "kind": "cap", "dagger": False}, off)
 
     def cup_at(off):
@@ -283,7 +308,17 @@ def gen_rigid(rng, nsteps, atoms=("a", "b"), maxw=6, zs=(0, 0, 0, 1, -1, 2, -2, 
                 cap_at(rng.randint(0, len(cur)))
                 continue
         add_box()
-    return {"cls": "rigid", "dom": dom, "boxes": boxes, "offsets": offsets}
+    share = rng.random() < 0.4
+    caps = [b for b in boxes if b["kind"] == "cap"]
+    if caps and rng.random() < 0.3:
+        # an equal cap earlier in the diagram whose legs just run down to the boundary, at the far
+        # right so that no later offset moves; with `share` it is the same object as the later one
+        twin = rng.choice(caps)
+        boxes.insert(0, {"name": "Cap", "dom": [], "cod": [list(a) for a in twin["cod"]], "kind": "cap",
+                         "dagger": False})
+        offsets.insert(0, len(dom))
+        share = share or rng.random() < 0.5
+    return {"cls": "rigid", "dom": dom, "boxes": boxes, "offsets": offsets, "share": share}
 
 
 def spec_of(real, cls):
